@@ -165,6 +165,34 @@ def _install_crosshair(reals_only: bool = True):
 
         ss.solver_is_sat = timed
         ss._verif_timed = True
+        # CrossHair's "premature realize" heuristic (make_concrete_or_symbolic) forks every int/float argument into
+        # a symbolic and an eagerly-realised twin, choosing the twin more often the more a harness realises that
+        # argument itself.  The twin only revisits inputs of the symbolic branch; harnesses that enumerate by
+        # realisation would spend most of their budget there.  Always take the symbolic branch.
+        orig_fp = ss.StateSpace.fork_parallel
+
+        def fork_parallel(self, false_probability, desc=""):
+            if desc.startswith("premature realize"):
+                return False
+            return orig_fp(self, false_probability, desc)
+
+        ss.StateSpace.fork_parallel = fork_parallel
+        # CrossHair's range() accepts int / SymbolicInt only: numpy integers (range(np.int64(3))) raise TypeError
+        # there although the real range() takes anything with __index__.
+        import operator
+
+        import crosshair.libimpl.builtinslib as _B
+        from crosshair.tracers import NoTracing as _NT
+
+        orig_range_init = _B.SymbolicRange.__init__
+
+        def range_init(self, *a):
+            with _NT():
+                a = tuple(x if isinstance(x, (int, _B.SymbolicInt)) or not hasattr(type(x), "__index__") else operator.index(x)
+                          for x in a)
+            orig_range_init(self, *a)
+
+        _B.SymbolicRange.__init__ = range_init
     if reals_only:
         import crosshair.libimpl.builtinslib as B
 
